@@ -123,6 +123,10 @@ func runSolver(ctx context.Context, s solverSpec, file string, timeout time.Dura
 	txt := out.String()
 	first := strings.TrimSpace(strings.SplitN(txt, "\n", 2)[0])
 	res := "error"
+	if strings.HasPrefix(first, "(error") && !strings.Contains(first, "model is not available") {
+		// a malformed query must never be mistaken for a verdict
+		return solveResult{s.name, "error", txt, time.Since(start).Milliseconds()}
+	}
 	switch {
 	case first == "unsat":
 		res = "unsat"
@@ -334,6 +338,11 @@ func summarize(o *Obligation, rs []solveResult) {
 		o.Model = parseModel(sat.output, o.ReplayQ)
 	default:
 		o.Result = "unknown"
+		for _, r := range rs {
+			if r.result == "error" {
+				o.Result = "error"
+			}
+		}
 		o.Output = strings.Join(outs, "; ")
 		// an "unknown" answer of z3 may still carry a candidate model
 		for i := range rs {
